@@ -1,7 +1,5 @@
 ------------------------------ MODULE Trace_Seq ------------------------------
 (* C09, binding V: input histories driven into the real sequential blocks     *)
-(* (the observation before the FIRST edge is the power-up state, which the    *)
-(* statement does not constrain: it is recorded but not judged)               *)
 (* from power-up, with the outputs observed before each edge (inputs applied, *)
 (* combinational logic settled) and after it, judged step by step against     *)
 (* the reference machines of SeqLib.                                          *)
@@ -33,7 +31,7 @@ Step ==
        IN  /\ s' = n
            /\ l' = l + 1
            /\ tid' = tid
-           /\ IF l > 1 /\ ~Agree(epre, pre) THEN bad' = TRUE /\ PrintT(ToJson(<<"V", tid, l, "before-edge", epre>>))
+           /\ IF ~Agree(epre, pre) THEN bad' = TRUE /\ PrintT(ToJson(<<"V", tid, l, "before-edge", epre>>))
               ELSE IF ~Agree(epost, post) THEN bad' = TRUE /\ PrintT(ToJson(<<"V", tid, l, "after-edge", epost>>))
               ELSE bad' = FALSE
 
